@@ -339,8 +339,77 @@ def compare(ctx, name_a, ra, name_b, rb, cs):
     return True
 
 
+def family_schema(rng):
+    """a record holding unions of records that extend one another's field list (defined inline at first use, by name
+    afterwards): a datum of a later branch also validates against an earlier one"""
+    ns = rng.choice(["", "geo", "a.b"])
+    q = (lambda n: ns + "." + n) if ns else (lambda n: n)
+    base = [{"name": "x", "type": rng.choice(["int", "long", "double"])}, {"name": "r", "type": rng.choice(["int", "string"])}][:rng.choice([1, 2])]
+    extras = [{"name": "inner", "type": ["null", "int"], "default": None}, {"name": "tag", "type": "string"},
+              {"name": "w", "type": "double", "default": 1.5}, {"name": "ks", "type": {"type": "array", "items": "long"}}]
+    rng.shuffle(extras)
+    n = rng.choice([2, 2, 3])
+    fam, fields = [], list(base)
+    for i in range(n):
+        fam.append({"type": "record", "name": q("F%d" % i), "fields": copy.deepcopy(fields)})
+        fields = fields + [extras[i]]
+    first = [copy.deepcopy(x) for x in fam]
+    if rng.random() < 0.5:
+        first.insert(0, "null")
+    names = [q("F%d" % i) for i in range(n)]
+    second = rng.sample(names, rng.choice([2, n]))
+    flds = [{"name": "u", "type": first}, {"name": "l", "type": {"type": "array", "items": second}}]
+    if rng.random() < 0.5:
+        flds.append({"name": "m", "type": {"type": "map", "values": ["null"] + names[::-1]}})
+    return {"type": "record", "name": q("Holder"), "fields": flds}
+
+
+CIRCLE = {"type": "record", "name": "geo.Circle", "fields": [{"name": "x", "type": "int"}, {"name": "r", "type": "int"}]}
+RING = {"type": "record", "name": "geo.Ring", "fields": [{"name": "x", "type": "int"}, {"name": "r", "type": "int"},
+                                                         {"name": "inner", "type": ["null", "int"], "default": None}]}
+BASIC = {"type": "record", "name": "Basic", "namespace": "ev", "fields": [{"name": "id", "type": "int"},
+                                                                           {"name": "note", "type": ["null", "string"], "default": None}]}
+DETAILED = {"type": "record", "name": "Detailed", "namespace": "ev", "fields": [{"name": "id", "type": "int"}, {"name": "level", "type": "int"},
+                                                                                 {"name": "text", "type": "string"}]}
+WITNESSES = [
+    # (all-in-one raw schema, pieces, parent, data): unions of record branches given by name, a datum that validates against
+    # an earlier branch and shares more fields with a later one
+    ({"type": "record", "name": "Holder", "fields": [{"name": "u", "type": ["null", CIRCLE, RING]},
+                                                      {"name": "l", "type": {"type": "array", "items": ["geo.Ring", "geo.Circle"]}}]},
+     [CIRCLE, RING],
+     {"type": "record", "name": "Holder", "fields": [{"name": "u", "type": ["null", "geo.Circle", "geo.Ring"]},
+                                                      {"name": "l", "type": {"type": "array", "items": ["geo.Ring", "geo.Circle"]}}]},
+     [{"u": {"x": 1, "r": 2, "inner": 3}, "l": [{"x": 4, "r": 5, "inner": 6}, {"x": 7, "r": 8}]},
+      {"u": {"x": 1, "r": 2}, "l": [{"x": 9, "r": 9, "inner": None}]}, {"u": None, "l": []}]),
+    ({"type": "record", "name": "Top", "namespace": "ev", "fields": [{"name": "seq", "type": "long"}, {"name": "payload", "type": [BASIC, DETAILED]}]},
+     [BASIC, DETAILED],
+     {"type": "record", "name": "Top", "namespace": "ev", "fields": [{"name": "seq", "type": "long"}, {"name": "payload", "type": ["Basic", "ev.Detailed"]}]},
+     [{"seq": 5, "payload": {"id": 1, "level": 3, "text": "disk full"}}, {"seq": 6, "payload": {"id": 2, "note": "n"}}, {"seq": 7, "payload": {"id": 3}}]),
+]
+
+
+def run_witnesses(ctx):
+    """deterministic witnesses, first in every run: raw vs parsed vs piecewise on fixed data"""
+    from fastavro.schema import parse_schema
+    for whole, pieces, parent, data in WITNESSES:
+        key = ("witness", json.dumps(whole, sort_keys=True))
+        ctx.count("corr:three-forms", key)
+        cs = dict(schema=whole, schema_json=json.dumps(whole), split_off=[sg.spec_fullname("", x)[1] for x in pieces],
+                  pieces_json=json.dumps(pieces), parent_json=json.dumps(parent), data=repr(data), witness=True)
+        shared = {}
+        st = outcome(lambda: [parse_schema(copy.deepcopy(x), shared) for x in pieces] and parse_schema(copy.deepcopy(parent), shared))
+        pr = outcome(lambda: parse_schema(copy.deepcopy(whole)))
+        if st[0] != "ok" or pr[0] != "ok":
+            ctx.violation("corr:three-forms", cs, impl=dict(piecewise=str(st)[:200], parsed=str(pr)[:200]), model="accepted",
+                          signature="C12:parse_schema:valid-schema-rejected")
+            continue
+        r_raw = ops(copy.deepcopy(whole), data)
+        compare(ctx, "raw", r_raw, "parsed", ops(pr[1], data, r_raw), cs) and compare(ctx, "raw", r_raw, "piecewise", ops(st[1], data, r_raw), cs)
+
+
 def run(ctx):
     from fastavro.schema import parse_schema, to_parsing_canonical_form
+    run_witnesses(ctx)
     rng = ctx.rng
     nschemas = 220 if ctx.quick() else 4000
     work = []          # (schema, chosen subset description, pieces, parent)
@@ -349,9 +418,11 @@ def run(ctx):
     kinds = {}
     while len(schemas) < nschemas and tries < nschemas * 20:
         tries += 1
-        want = rng.choice(["record"] * 6 + ["union"] * 3 + ["container"])
+        want = rng.choice(["record"] * 6 + ["union"] * 3 + ["container"] + ["family"] * 2)
         g = sg.Gen(rng, budget=rng.choice([6, 10, 16, 24]), int_float_defaults=False)
-        if want == "record":
+        if want == "family":
+            s = family_schema(rng)
+        elif want == "record":
             s = g.record("", rng.choice([1, 2, 3, 4]))
         elif want == "union":
             # a top-level union: record branches, dict-form non-record branches (they never carry the parsed marker), primitives
@@ -623,6 +694,24 @@ def run(ctx):
 def replay(ctx, rep):
     from fastavro.schema import parse_schema
     c = rep["case"]
+    if c.get("witness"):
+        import ast
+        whole, pieces, parent = json.loads(c["schema_json"]), json.loads(c["pieces_json"]), json.loads(c["parent_json"])
+        data = ast.literal_eval(c["data"])
+        shared = {}
+        for x in pieces:
+            parse_schema(copy.deepcopy(x), shared)
+        pw = parse_schema(copy.deepcopy(parent), shared)
+        r_raw = ops(copy.deepcopy(whole), data)
+        r_parsed, r_pw = ops(parse_schema(copy.deepcopy(whole)), data, r_raw), ops(pw, data, r_raw)
+        ok = True
+        for op in r_raw:
+            if op.startswith("_"):
+                continue
+            if r_raw[op] != r_parsed.get(op, r_raw[op]) or r_raw[op] != r_pw.get(op, r_raw[op]):
+                print(op, "raw:", str(r_raw[op])[:200], "| parsed:", str(r_parsed.get(op))[:200], "| piecewise:", str(r_pw.get(op))[:200])
+                ok = False
+        return ok
     if c.get("family") == "reader-only fields with defaults":
         import ast
         import fastavro
